@@ -1,5 +1,6 @@
 (* M9: the reference PEG reading of C01, over the attributed grammar.  Exactly the rules of the property statement:
-   a sequence needs every element in order, '|' takes the first alternative that matches, repetition is greedy and never
+   a sequence needs every element in order, '|' takes the first alternative that matches, '&' accepts its operands in any
+   order with each required one exactly once, repetition is greedy and never
    gives back, lookaheads consume nothing, and every whitespace-skipping element first consumes leading whitespace
    (even when it then matches nothing).  `in_class` is the boolean predicate saying which grammars the theorem covers. *)
 From Coq Require Import List ZArith NArith Bool Arith.
@@ -100,6 +101,53 @@ Section Level.
       | r => r
       end
     end.
+  (* '&' (Each): "accepts its operands in any order with each required one exactly once": a plain operand exactly once, the
+     content of an Opt at most once, of a ZeroOrMore any number of times, of a OneOrMore at least once.  At each point the
+     candidates are tried in the order required / optional / repeatable (each group in the order written); every candidate
+     that matches is taken; rounds are repeated until none matches.  The tokens are those of the sequence of the operands in
+     the order taken, followed by the Opt operands never taken (default value, whitespace in front of them).
+     Unlike Each.parseImpl the reading has no second list for required operands that can match empty.
+     The classification of the operands and their equality classes are those of Model/Core.v. *)
+  Fixpoint peg_each_round (es : list expr) (cands : list each_ent) (loc : nat) (reqd opt : list each_ent) (mo : list expr) (nf : nat)
+           (k : nat -> list each_ent -> list each_ent -> list expr -> nat -> res) : res :=
+    match cands with
+    | [] => k loc reqd opt mo nf
+    | en :: rest =>
+      match rec (ee_e en) loc with
+      | POk l _ =>
+        let mo' := mo ++ [each_order es en] in
+        if mem_cls (ee_cls en) reqd then peg_each_round es rest l (remove_cls (ee_cls en) reqd) opt mo' nf k
+        else if mem_cls (ee_cls en) opt then peg_each_round es rest l reqd (remove_cls (ee_cls en) opt) mo' nf k
+        else peg_each_round es rest l reqd opt mo' nf k
+      | PFail => peg_each_round es rest loc reqd opt mo (S nf) k
+      | r => r
+      end
+    end.
+  Fixpoint peg_each_loop (es : list expr) (fuel : nat) (loc : nat) (reqd opt multis : list each_ent) (mo : list expr)
+           (k : list each_ent -> list each_ent -> list expr -> res) : res :=
+    match fuel with
+    | 0 => PDiv
+    | S f =>
+      let cands := reqd ++ opt ++ multis in
+      peg_each_round es cands loc reqd opt mo 0 (fun loc' reqd' opt' mo' nf =>
+        if Nat.eqb nf (length cands) then k reqd' opt' mo'
+        else if Nat.eqb loc' loc && Nat.eqb (length reqd') (length reqd) && Nat.eqb (length opt') (length opt) then PDiv
+        else peg_each_loop es f loc' reqd' opt' multis mo' k)
+    end.
+  Definition peg_each (es : list expr) (info : list each_info) (loc : nat) : res :=
+    let zs := each_zip es info in
+    let reqd := each_req1 zs ++ each_multi true zs in
+    let opt := each_opt1 zs in
+    let multis := each_multi false zs in
+    peg_each_loop es (each_fuel (length s) reqd opt multis) loc reqd opt multis []
+      (fun reqd' opt' mo =>
+         match reqd' with
+         | _ :: _ => PFail
+         | [] =>
+           let unmatched := flat_map (fun z : expr * each_info =>
+                                        if is_opt (fst z) && mem_cls (snd (snd (snd z))) opt' then [fst z] else []) zs in
+           peg_seq (mo ++ unmatched) loc []
+         end).
 End Level.
 
 Fixpoint peg (fuel : nat) (e : expr) (loc0 : nat) : res :=
@@ -121,6 +169,7 @@ Fixpoint peg (fuel : nat) (e : expr) (loc0 : nat) : res :=
       let loc1 := if forallb (fun c => callpre (attrs_of c)) es
                   then (if skipws a then skip_white s loc (white a) else loc) else loc in
       peg_longest (peg f) es loc1 None
+    | Nary _ _ (NEach info) es => peg_each (peg f) es info loc
     | Enh _ _ (EOpt d) c =>
       match peg f c loc with
       | PFail => POk loc (match d with Some v => [tok_as_list v] | None => [] end)
@@ -187,6 +236,11 @@ Fixpoint in_class (e : expr) : bool :=
   | Nary a ign NMatchFirst es =>
     plain_attrs a && match ign with [] => true | _ => false end &&
     (fix all (l : list expr) : bool := match l with [] => true | x :: r => in_class x && all r end) es
+  | Nary a ign (NEach info) es =>
+    (* no required operand may return empty: Each.parseImpl would take it twice (Props/C01.v C01_each_once_refuted) *)
+    plain_attrs a && match ign with [] => true | _ => false end &&
+    match each_opt2 (each_zip es info) with [] => true | _ => false end &&
+    (fix all (l : list expr) : bool := match l with [] => true | x :: r => in_class x && all r end) es
   | Enh a ign k c =>
     plain_attrs a && match ign with [] => true | _ => false end && in_class c &&
     match k with
@@ -217,6 +271,9 @@ Fixpoint in_ref_class (e : expr) : bool :=
     match es with [] => false | c :: _ => child_ok a c end && all es
   | Nary a ign NMatchFirst es => plain_attrs a && match ign with [] => true | _ => false end && all es
   | Nary a ign NOr es => plain_attrs a && match ign with [] => true | _ => false end && all es
+  | Nary a ign (NEach info) es =>
+    plain_attrs a && match ign with [] => true | _ => false end &&
+    match each_opt2 (each_zip es info) with [] => true | _ => false end && all es
   | Enh a ign k c =>
     plain_attrs a && match ign with [] => true | _ => false end && in_ref_class c &&
     match k with
